@@ -100,6 +100,8 @@ func main() {
 		cmdC06(*tier, *seed, *out, *stats, *replay)
 	case "C07":
 		cmdC07(*tier, *seed, *out, *stats, *replay)
+	case "C10":
+		cmdC10(*tier, *seed, *out, *stats, *replay)
 	case "C11":
 		cmdC11(*tier, *seed, *out, *stats, *replay)
 	case "C12":
